@@ -397,8 +397,10 @@ def apply_op(model, op, union, fresh, single_graph=False, ignore_using_named=Fal
         g = op["g"]
         if g not in ("DEFAULT", "NAMED", "ALL") and default_iri is not None and skey(g) == default_iri:
             g = "DEFAULT"
-        if g == "DEFAULT":
+        if g == "DEFAULT" or (single_graph and g == "ALL"):
             model[DEFAULT] = set()
+        elif single_graph and g == "NAMED":
+            pass  # a single graph is a graph store with a default graph only
         elif g == "NAMED":
             for n in list(named):
                 model[n] = set()
